@@ -1,102 +1,80 @@
 (* Properties/C15.v — bad input fails cleanly (statements only; binding layer).
    Model: Model/Parser.v.  Documented = {Ok, ParserError, ConverterError, XmlContextError,
    XmlHandlerError} (xsdata/exceptions.py); the model's outcome type contains the Python
-   exceptions the code does not catch, so the statements below are real. *)
+   exceptions the code does not catch, so the statements below are real.
+
+   History.  The full statement had five machine-checked refutations.  Four of the defects
+   were repaired in /repo and their refutations and guard clauses are gone:
+     missing required field / init=False wildcard -> TypeError from cls( **params)   fixed 24a005e
+     xs:hexBinary / xs:base64Binary wrapper on empty or unconverted text -> TypeError  fixed 32d0281
+     text after a class-typed child next to a wildcard -> TypeError                   fixed 8cca284
+   their witnesses stay in Proofs/ParserWitness.v (model = observation, documented) and are
+   replayed on the implementation by ./check C15 on every run. *)
 From Coq Require Import NArith ZArith List Bool Arith.
 From XV Require Import Base.Str Base.Eqb Base.PyInt Model.Bind Model.Parser Model.ParserCorr Spec.Inject
   Proofs.ParserWitness Proofs.ParserDoc Proofs.ParserCost.
 Import ListNotations.
 
-(* FULL statement: for EVERY stream of parser events the outcome is documented.  Refuted, one
-   witness per defect (each witness is a real document / stream, replayed on the implementation
-   by ./check C15 on every run). *)
+(* FULL statement: for EVERY stream of parser events the outcome is documented. *)
 Definition outcome_documented_statement : Prop :=
   forall cfg c u root d, outcome_documented (parse cfg c u root d) = true.
 
-(* 1. a required field (no default) is missing: cls( **params) raises TypeError in ElementNode.bind *)
-Theorem C15_outcome_documented_refuted_missing_required :
-  exists cfg c u root d, parse cfg c u root d = Err (PyTypeError TMissingArg).
-Proof. do 5 eexists. exact (proj1 w_missing_required). Qed.
-Print Assumptions C15_outcome_documented_refuted_missing_required.
-
-(* 2. xsi:type = xs:hexBinary / xs:base64Binary on an anyType element with empty or
-      unconvertible text: StandardNode.bind calls XmlHexBinary("") -> TypeError *)
-Theorem C15_outcome_documented_refuted_bytes_wrapper :
-  exists cfg c u root d, parse cfg c u root d = Err (PyTypeError TBytesWrapper).
-Proof. do 5 eexists. exact (proj1 w_bytes_wrapper_empty). Qed.
-Print Assumptions C15_outcome_documented_refuted_bytes_wrapper.
-
-(* 3. text after a class-typed child of a class with a (non-mixed) wildcard field: bind_objects
-      looks up the children of qname None -> match_namespace(None) -> TypeError *)
-Theorem C15_outcome_documented_refuted_tail_wildcard :
-  exists cfg c u root d, parse cfg c u root d = Err (PyTypeError TNoneQname).
-Proof. do 5 eexists. exact (proj1 w_tail_none_qname). Qed.
-Print Assumptions C15_outcome_documented_refuted_tail_wildcard.
-
-(* 4. a wildcard field declared init=False: the parser passes it to the constructor anyway *)
-Theorem C15_outcome_documented_refuted_noninit_wildcard :
-  exists cfg c u root d, parse cfg c u root d = Err (PyTypeError TUnexpectedKw).
-Proof. do 5 eexists. exact (proj1 w_unexpected_keyword). Qed.
-Print Assumptions C15_outcome_documented_refuted_noninit_wildcard.
-
-(* 5. (event streams only; no tokeniser produces them) an `end` without `start`: queue.pop() *)
+(* the one remaining refutation (event streams only; no tokeniser produces them): an `end`
+   without `start` reaches queue.pop() on an empty list *)
 Theorem C15_outcome_documented_refuted_unbalanced :
   exists cfg c u root d, parse cfg c u root d = Err PyIndexError.
 Proof. do 5 eexists. exact (proj1 w_end_without_start). Qed.
 Print Assumptions C15_outcome_documented_refuted_unbalanced.
 
-(* GUARDED statement: one clause per refutation above, plus the well-formedness of the metadata
-   the real XmlContext exports (kinds of the variables in each table of XmlMeta, one role per
-   field name, every referenced class has metadata) -- evaluated in Coq on every exported
-   universe by ./check C15.  `d` ranges over ALL event streams: not well nested beyond clause 5,
-   not fitting the model, unknown names, wrong root, bad xsi:type / xsi:nil, unconvertible text. *)
+(* GUARDED statement: the clause of the remaining refutation (well_nested), the validity of the
+   converter parameter (resolving an xsi:type value gives a QName or fails), and the
+   well-formedness of the metadata the real XmlContext exports (kinds of the variables in each
+   table of XmlMeta, one role per field name, every referenced class has metadata) -- the last
+   two evaluated in Coq on every case / every exported universe by ./check C15.
+   `d` ranges over ALL well nested event streams: not fitting the model, unknown names, wrong
+   root, missing required fields, character data anywhere, bad xsi:type / xsi:nil,
+   unconvertible text. *)
 Theorem C15_outcome_documented : forall n cfg c u root d,
   wf_universe u = true -> root_ok u root = true ->
-  all_required_have_defaults cfg = true ->     (* 1: every init field has a default *)
-  xsi_types_ok c d = true ->                   (* 2: no xsi:type naming a datatype with a bytes wrapper class *)
-  tails_blank d = true ->                      (* 3: no character data after a child element *)
-  init_fields_only u = true ->                 (* 4: wildcard / attributes fields are init fields *)
-  well_nested d = true ->                      (* 5: no `end` without an open element *)
+  xsi_types_ok c d = true ->
+  well_nested d = true ->
   outcome_documented (parse_n n cfg c u root d) = true.
-Proof. intros. apply outcome_documented_main; assumption. Qed.
+Proof. exact outcome_documented_main. Qed.
 Print Assumptions C15_outcome_documented.
+
+Theorem C15_outcome_documented_parse : forall cfg c u root d,
+  wf_universe u = true -> root_ok u root = true ->
+  xsi_types_ok c d = true -> well_nested d = true ->
+  outcome_documented (parse cfg c u root d) = true.
+Proof. exact outcome_documented_parse. Qed.
+Print Assumptions C15_outcome_documented_parse.
 
 (* non-vacuity: real exported metadata (model `wildtail`: class-typed child, list of int,
    wildcard) and a stream with an unknown element, a misplaced end name, an unconvertible
-   value and a duplicated child satisfy every guard; the outcome is a documented error *)
+   value, a duplicated child and stray character data satisfy every guard *)
 Definition reject_all : conv :=
   mk_conv (fun _ _ _ _ => None) (fun _ _ => []) (fun _ _ => false) (fun _ => ([], false)) (fun _ => None).
 Definition d_nonvacuous : list pevent :=
-  [PStart [87] [] []; PStart [99] [([118]%N, [113]%N)] []; PEnd [99] None None;
+  [PStart [87] [] []; PStart [99] [([118]%N, [113]%N)] []; PEnd [99] None (Some [116;97;105;108]%N);
    PStart [100] [] []; PEnd [120] (Some [49;50;120]%N) None;
    PStart [99] [] []; PEnd [99] None None;
    PStart [122;122] [] []; PEnd [122;122] None None; PEnd [87] None None].
 Example C15_guard_nonvacuous :
   wf_universe u_wildtail = true /\ root_ok u_wildtail (Some root_wildtail) = true
-  /\ all_required_have_defaults (cfg_of true false true nodefault_wildtail) = true
-  /\ xsi_types_ok reject_all d_nonvacuous = true /\ tails_blank d_nonvacuous = true
-  /\ init_fields_only u_wildtail = true /\ well_nested d_nonvacuous = true
+  /\ xsi_types_ok reject_all d_nonvacuous = true /\ well_nested d_nonvacuous = true
   /\ parse (cfg_of true false true nodefault_wildtail) reject_all u_wildtail (Some root_wildtail) d_nonvacuous = Err ParserError.
 Proof. repeat split; vm_compute; reflexivity. Qed.
 
-(* the exported universes of the witness models violate exactly the clause they refute *)
-Example C15_guard_clauses_separate :
-  all_required_have_defaults (cfg_of false false false nodefault_required) = false
-  /\ xsi_types_ok (conv_of_table tbl_bytes_wrapper_empty) ev_bytes_wrapper_empty = false
-  /\ tails_blank ev_tail_none_qname = false
-  /\ init_fields_only u_noinitwild = false
+(* the former witnesses now satisfy every guard (and are documented by the theorem), the
+   remaining one violates exactly its clause; the exported universes are well formed *)
+Example C15_former_witnesses_guarded :
+  well_nested ev_missing_required = true /\ well_nested ev_tail_none_qname = true
+  /\ well_nested ev_bytes_wrapper_empty = true /\ well_nested ev_unexpected_keyword = true
+  /\ xsi_types_ok (conv_of_table tbl_bytes_wrapper_empty) ev_bytes_wrapper_empty = true
   /\ well_nested ev_end_without_start = false
   /\ wf_universe u_required = true /\ wf_universe u_anytype = true /\ wf_universe u_wildtail = true
   /\ wf_universe u_noinitwild = true /\ wf_universe u_scalarwild = true.
 Proof. repeat split; vm_compute; reflexivity. Qed.
-
-Theorem C15_outcome_documented_parse : forall cfg c u root d,
-  wf_universe u = true -> root_ok u root = true ->
-  all_required_have_defaults cfg = true -> xsi_types_ok c d = true -> tails_blank d = true ->
-  init_fields_only u = true -> well_nested d = true ->
-  outcome_documented (parse cfg c u root d) = true.
-Proof. intros. unfold parse. apply outcome_documented_main; assumption. Qed.
-Print Assumptions C15_outcome_documented_parse.
 
 (* bounded time, binding layer: the model is a structural recursion over the event list (total
    by construction; UnionNode replays by fuel); beyond termination: one step per event, and the
